@@ -91,6 +91,23 @@ def abort_marker(idx, rep):
             for k, kk, v in p.trace:
                 if k == "set" and (kk.startswith("cp") or kk.startswith("res")) and any(w in kk for w in ("abort", "complete", "fail", "error")):
                     marker = True
+    # a member that has not read a line (physical_line_number None: by-line abort before its turn, load failure) has not completed,
+    # whatever its scan part: Scanner.is_last(None) on the state the productions build
+    from . import scanner_model as SM
+    prods = SM.productions(idx)
+    fl = idx.method("Scanner", "is_last")
+    rep.analysed(fl, fc)
+    badn = None
+    shapes = ["*", "2*", "3", "1-4", "1+3", "0+2+5", "1-2+5"]
+    for sc in shapes:
+        st, res = SM.parse_state(idx, prods, sc)
+        if st is None:
+            raise AnalysisError(f"C18.R2: scan part [{sc}] does not reduce: {res}")
+        for end in (8, None):
+            got = SM.call_pred(idx, "is_last", st, None, end)
+            if got != ("return", False):
+                badn = badn or f"scan part [{sc}], no line read yet (line number None, end line {end}): Scanner.is_last answers {got[1]!r}, so CsvPath.completed is true for a member that never read a line"
+    rep.check(badn is None, "R2", f"{fl.file}::Scanner.is_last before the first line", badn or f"{len(shapes)} scan shapes x 2", K.where(fl, fl.node))
     ok = not (only_csvpath and position_only and not marker)
     rep.check(ok, "R2", f"{fr.file}::ResultRegistrar.completed abort on the scan's last line",
               "`completed` in the member manifest is csvpath.completed, which is true whenever the current line is the scan's last line; nothing records that the run was cut short, so a member "
